@@ -266,12 +266,13 @@ def spec_push(waiters, conn, idle_n, max_idle, have_queue, have_idle):
     return (tuple(log), tuple(queue) if queue is not None else (), tuple(idle) if idle is not None else None, False)
 
 
-def push_table(ctx, facts, label="PoolInner::push"):
+def push_table(ctx, facts, label="PoolInner::push", fn_name=None):
+    """`fn_name`: another hand-back entrance with push's signature (token, connection, pool reference) - it must behave as push."""
     try:
         lay = layout(facts)
     except KeyError as e:
         return ctx.missing("%s|layout" % label, str(e))
-    u = unit_of(facts, PUSH)
+    u = unit_of(facts, fn_name or PUSH)
     ctx.touched(u)
     kinds = [("alive", False), ("closed", False), ("race", True)]
     scen = []
